@@ -19,12 +19,14 @@ def run(prog, world, sem, rep):
     rep.rule("C02.b", "registry-only targets: Delegate.validator comes only from the registry's GetValidatorsForDelegation answer (queried at "
              "Config.validators_registry_contract); an empty answer is an error", 4)
     rep.rule("C02.c", "undelegation books: the amount handed to the undelegation planner is the sum of exactly the two products subtracted from the "
-             "pools; Undelegate messages pair planner output i with the hub's own delegation i", 3)
+             "pools; Undelegate messages pair planner output i with the hub's own delegation i, one for every planner entry (no early exit)", 4)
     rep.rule("C02.d", "spend-site inventory (the hub's liquid balance is only spent by WithdrawUnbonded): BankMsg::Send only on the withdraw path, "
              "StakingMsg::Delegate only on the bond path, every WasmMsg::Execute carries no funds, no other coin-moving message kinds", 15)
     rep.rule("C02.f", "the planners place everything: the hub discards the delegation planner's reported remainder, so the planners' distribution "
              "loops may leave early (other than by exhausting the validator list) only on the edge where the amount still to place was observed "
              "to be zero", 3)
+    rep.rule("C02.g", "conversion conserves the booked total: a Convert hook lowers the pool of the token received and raises the pool of the "
+             "token minted by the identical coin value (one expression), so bSei pool + stSei pool is unchanged by it", 2)
     rep.rule("C02.e", "slashing first: every pricing handler calls the resync function and every write of STATE in the handler happens after it", 5)
 
     ex = entry(prog, "hub")
@@ -190,33 +192,21 @@ def run(prog, world, sem, rep):
         if claim_call is not None:
             pb = world.callee_body(claim_call)
             pv = [v for v in vs_r if v.body.path == pb.path][0]
-            ud = [(v, bb, e) for (v, bb, i, e) in message_effects(sem, [pv]) if e.info[0].endswith("StakingMsg") and e.info[1] == "Undelegate"]
+            psub = subtree(vs_r, pv)
+            ud = [(v, bb, e) for (v, bb, i, e) in message_effects(sem, psub) if e.info[0].endswith("StakingMsg") and e.info[1] == "Undelegate"]
             okp = False
-            det = "Undelegate constructions in %s: %d" % (pb.path, len(ud))
+            ee = None
+            det = "Undelegate constructions under %s: %d" % (pb.path, len(ud))
             if len(ud) == 1:
-                v, bb, e = ud[0]
-                e = pv.be.ev_rvalue(bb, [i for i, s in enumerate(pv.body.blocks[bb].stmts) if s.rv is not None and s.rv.kind == "agg" and s.rv.j.get("adt", "").endswith("StakingMsg")][0],
-                                    [s for s in pv.body.blocks[bb].stmts if s.rv is not None and s.rv.kind == "agg" and s.rv.j.get("adt", "").endswith("StakingMsg")][0].rv)
-                d = dict(zip(e.info[2], e.args))
-                val = world.norm(d["validator"], 0, False)
-                amt, denom = coin_parts(world, sem, d["amount"])
-                an = world.norm(amt, 0, False)
-                # validator = validators[item.0].address ; amount = item.1 ; item from enumerate(iter(planner(claim, validators)))
-                vi = val.args[0] if val.op == "field" and val.info[0] == "address" else None
-                c1 = vi is not None and vi.op == "call" and vi.info == "std::ops::Index::index"
-                idx = vi.args[1] if c1 else None
-                c2 = c1 and idx.op == "field" and idx.info[0] == "0" and an.op == "field" and an.info[0] == "1" and idx.args[0] == an.args[0]
-                planner = find(an, lambda y: y.op == "call" and y.info.endswith("common::calculate_undelegations"))
-                c3 = bool(planner) and sem.label(planner[0].args[0]) is not None and sem.label(planner[0].args[0])[0] == "param"
-                own = find(world.norm(vi.args[0], 0, False), lambda y: y.op == "call" and y.info.endswith("query_all_delegations")) if c1 else []
-                c4 = bool(own)
-                c5 = sem.label(pv.resolve(denom)) == stored(PARAMS, "underlying_coin_denom")
-                okp = c1 and c2 and c3 and c4 and c5
-                det = "indexed validator: %s, same enumerate item: %s, planner(claim param): %s, validators from own delegations: %s, staking denom: %s" % (c1, c2, c3, c4, c5)
-                if c4:
-                    da = pv.resolve(own[0].args[1])
-                    rep.ob("C02.c", "undelegation validators are the hub's own delegations", sem.label(da) == ("self",), "delegator %s" % (sem.label(da),), where(pb))
+                okp, det, ee, delegator = undelegate_pairing(prog, world, sem, pv, ud[0])
+                if delegator is not None:
+                    rep.ob("C02.c", "undelegation validators are the hub's own delegations", sem.label(delegator) == ("self",), "delegator %s" % (sem.label(delegator),), where(pb))
             rep.ob("C02.c", "Undelegate pairs planner output i with delegation i", okp, det, where(pb))
+            if len(ud) == 1:
+                rep.ob("C02.c", "every planner entry is turned into an Undelegate", ee == [],
+                       "the code emitting Undelegate messages can skip planner entries (%s): the claim is removed from the books in full but those entries are never "
+                       "undelegated" % (["line %d" % l for _, _, l in ee] if ee and isinstance(ee[0], tuple) else ee) if ee else
+                       ("every entry is visited" if ee == [] else "anchor-lost: the Undelegate construction is not inside a loop"), where(ud[0][0].body, ud[0][1]))
 
     # ---------------------------------------------------------------- C02.d
     for vn in variants:
@@ -279,6 +269,127 @@ def run(prog, world, sem, rep):
                         if kind == "read":
                             bad.append("STATE read directly at %s:%d (pricing must use the re-synchronised state)" % (v.body.path.split("::")[-1], v.body.blocks[bb].term.line))
         rep.ob("C02.e", "%s: resync before pricing and before every STATE write" % name, not bad, "; ".join(bad) if bad else "resync dominates all STATE writes; no raw STATE read", where(hv.body), key="C02.e | %s" % name)
+
+    # ---------------------------------------------------------------- C02.g
+    for name, hv, vs in pricing:
+        if "/Convert/" not in name:
+            continue
+        src = name.rsplit("/", 1)[1]
+        dst = "stsei" if src == "bsei" else "bsei"
+        sw = [(v, bb, kind, val) for (v, bb, kind, cell, key, val, e) in storage_effects(sem, vs)
+              if cell == STATE and kind in ("write", "update") and v.body.path not in rs and not any(a.body.path in rs for a in _ancestors(v))]
+        bad = []
+        if len(sw) != 1:
+            bad.append("anchor-lost: %d STATE writes in the conversion outside the resync" % len(sw))
+        for (v, bb, kind, val) in sw[:1]:
+            wv = written_value_in(sem, vs, v, kind, STATE, val, False)
+            cs = classify(sem, STATE, sem.field_of(wv, "total_bond_%s_amount" % src), ("total_bond_%s_amount" % src,))
+            cd = classify(sem, STATE, sem.field_of(wv, "total_bond_%s_amount" % dst), ("total_bond_%s_amount" % dst,))
+            if not (cs[0] == "delta" and cs[1] == -1 and cd[0] == "delta" and cd[1] == 1):
+                bad.append("pool changes are %s (%s) and %s (%s), expected -x / +x" % (cs[:2], src, cd[:2], dst))
+            elif world.norm(cs[2], 0, False) != world.norm(cd[2], 0, False):
+                bad.append("the %s pool is lowered by %s but the %s pool is raised by %s: the booked total changes by the difference" % (
+                    src, show(world.norm(cs[2], 0, False), 3), dst, show(world.norm(cd[2], 0, False), 3)))
+        rep.ob("C02.g", "%s moves one coin value between the pools" % name, not bad, "; ".join(bad) if bad else "-x on %s, +x on %s, same x" % (src, dst),
+               where(hv.body), key="C02.g | %s" % name)
+
+
+PLANNER = "common::calculate_undelegations"
+
+
+def undelegate_pairing(prog, world, sem, pv, site):
+    """The Undelegate message built under the picker `pv` pairs planner output i with entry i of the very validator list the planner was
+    given, for every entry with a non-zero amount.  Accepted forms (the repo's idioms):
+      loop      for (i, a) in planner(..).iter().enumerate() { if a.is_zero() { continue } push(Undelegate{validators[i].address, a}) }
+      iterator  planner(..).iter().enumerate()[.filter(|(_, a)| !a.is_zero())].map(|(i, a)| Undelegate{validators[i].address, a})
+                validators.iter().zip(planner(..).iter())[.filter(|(_, a)| !a.is_zero())].map(|(v, a)| Undelegate{v.address, a})
+                consumed whole by extend / collect.
+    Returns (ok, detail, skipping reasons or early exits, delegator expression of the own-delegations query)."""
+    v, bb, e = site
+    d = dict(zip(e.info[2], e.args))
+    val = world.norm(d["validator"], 0, False)
+    amt, denom = coin_parts(world, sem, d["amount"])
+    an = world.norm(amt, 0, False)
+    c5 = sem.label(denom) == stored(PARAMS, "underlying_coin_denom")
+    addr_of = val.args[0] if val.op == "field" and val.info[0] == "address" else None
+    indexed = addr_of is not None and addr_of.op == "call" and addr_of.info == "std::ops::Index::index"
+
+    def strip(x):
+        x = world.ident(x, expand_ws=False)
+        while x.op == "call" and (x.info.endswith("slice::iter") or x.info.endswith("IntoIterator::into_iter") or x.info.endswith("Clone::clone")):
+            x = world.ident(x.args[0], expand_ws=False)
+        return x
+
+    def own_query(x):
+        q = find(world.norm(x, 0, False), lambda y: y.op == "call" and y.info.endswith("query_all_delegations"))
+        return q[0] if q else None
+    planner, vlist, c2, ee, form = None, None, False, None, "?"
+    if v is pv:
+        form = "loop"
+        idx = addr_of.args[1] if indexed else None
+        c2 = indexed and idx.op == "field" and idx.info[0] == "0" and an.op == "field" and an.info[0] == "1" and idx.args[0] == an.args[0]
+        pl = find(an, lambda y: y.op == "call" and y.info.endswith(PLANNER))
+        planner = pl[0] if pl else None
+        vlist = addr_of.args[0] if indexed else None
+        ee = early_exits(sem, pv, bb)
+    elif v.body.kind == "closure" and v.parent is not None and v.parent[0] is pv:
+        form = "iterator chain"
+
+        def item(x, f):
+            return x is not None and x.op == "field" and x.info[0] == f and x.args[0].op == "param" and x.args[0].info[0] == v.body.path and x.args[0].info[1] == 2
+        ee = ["the closure building the message is not the argument of a map"]
+        for blk in pv.body.calls():
+            em = pv.be.ev_call(blk.idx, blk.term)
+            if not (em.op == "call" and em.info.endswith("Iterator::map") and len(em.args) == 2 and em.args[1].op == "closure" and em.args[1].info == v.body.path):
+                continue
+            ee = []
+            r = world.ident(em.args[0], expand_ws=False)
+            zipped = None
+            while r.op == "call":
+                nm = r.info
+                if nm.endswith("Iterator::filter") and r.args[1].op == "closure":
+                    fb = prog.bodies.get(r.args[1].info)
+                    pr = world.norm(world.ret_expr(fb), 0, False) if fb is not None else None
+                    okf = pr is not None and pr.op == "un" and pr.info == "Not" and pr.args[0].op == "call" and pr.args[0].info.endswith("::is_zero") and \
+                        (lambda a0: a0.op == "field" and a0.info[0] == "1" and a0.args[0].op == "param" and a0.args[0].info[1] == 2)(world.ident(pr.args[0].args[0], expand_ws=False))
+                    if not okf:
+                        ee.append("filter drops entries other than zero amounts")
+                    r = world.ident(r.args[0], expand_ws=False)
+                elif nm.endswith("Iterator::enumerate") or nm.endswith("slice::iter") or nm.endswith("IntoIterator::into_iter"):
+                    r = world.ident(r.args[0], expand_ws=False)
+                elif nm.endswith("Iterator::zip") and zipped is None:
+                    zipped = (strip(r.args[0]), strip(r.args[1]))
+                    break
+                else:
+                    break
+            if zipped is not None:
+                # |(validator, amount)|: validator entry i and planner output i
+                c2 = addr_of is not None and item(addr_of, "0") and item(an, "1")
+                pl = find(world.norm(zipped[1], 0, False), lambda y: y.op == "call" and y.info.endswith(PLANNER))
+                planner = pl[0] if pl else None
+                vlist = pv.resolve(zipped[0])
+            else:
+                c2 = indexed and item(addr_of.args[1], "0") and item(an, "1")
+                pl = find(world.norm(r, 0, False), lambda y: y.op == "call" and y.info.endswith(PLANNER))
+                planner = pl[0] if pl else None
+                vlist = addr_of.args[0] if indexed else None
+                if r.op == "call" and not r.info.endswith(PLANNER):
+                    ee.append("unrecognised iterator adaptor %s (may skip or stop early)" % r.info)
+            cons = [1 for b2 in pv.body.calls() for e2 in [pv.be.ev_call(b2.idx, b2.term)]
+                    if any(a0 == em for a0 in e2.args) and (str(e2.info).endswith("Extend::extend") or str(e2.info).endswith("Iterator::collect")
+                                                            or (isinstance(e2.info, tuple) and str(e2.info[0]).endswith("Extend::extend")))]
+            if not cons:
+                ee.append("mapped iterator is not consumed by extend / collect")
+    # the planner distributes the claim handed to the picker (its parameter, here in the entry point's terms) ...
+    c3 = planner is not None and any(a is not None and world.norm(pv.resolve(planner.args[0]), 0, False) == world.norm(a, 0, False) for a in (pv.args or []))
+    # ... over the very list whose entries receive the amounts, which is the hub's own delegation list
+    c6 = planner is not None and vlist is not None and world.norm(strip(pv.resolve(planner.args[1])), 0, False) == world.norm(strip(vlist), 0, False)
+    q = own_query(vlist) if vlist is not None else None
+    c4 = q is not None
+    ok = c2 and c3 and c4 and c5 and c6
+    det = "%s form; amount i paired with validator i: %s, planner(claim param): %s, same list planned and indexed: %s, list from own delegations: %s, staking denom: %s" % (
+        form, c2, c3, c6, c4, c5)
+    return ok, det, ee, (q.args[1] if q is not None else None)
 
 
 def _ancestors(v):
